@@ -6,7 +6,7 @@ pub struct HashMap<K, V> { _k: std::marker::PhantomData<K>, _v: std::marker::Pha
 impl<K: VKey, V> HashMap<K, V> {
     pub uninterp spec fn view(&self) -> Map<K::K, V>;
     #[verifier::external_body]
-    pub fn new() -> (r: Self) ensures r@ == Map::<K::K, V>::empty() { unimplemented!() }
+    pub fn new() -> (r: Self) ensures r@ == Map::<K::K, V>::empty(), r@.dom().finite() { unimplemented!() }
     #[verifier::external_body]
     pub fn get(&self, k: &K) -> (r: Option<&V>)
         ensures match r { Some(v) => self@.contains_key(k.vkey()) && *v == self@[k.vkey()], None => !self@.contains_key(k.vkey()) }
@@ -15,7 +15,7 @@ impl<K: VKey, V> HashMap<K, V> {
     pub fn contains_key(&self, k: &K) -> (r: bool) ensures r == self@.contains_key(k.vkey()) { unimplemented!() }
     #[verifier::external_body]
     pub fn insert(&mut self, k: K, v: V) -> (r: Option<V>)
-        ensures final(self)@ == old(self)@.insert(k.vkey(), v),
+        ensures final(self)@ == old(self)@.insert(k.vkey(), v), old(self)@.dom().finite() ==> final(self)@.dom().finite(),
             match r { Some(p) => old(self)@.contains_key(k.vkey()) && p == old(self)@[k.vkey()], None => !old(self)@.contains_key(k.vkey()) }
     { unimplemented!() }
     #[verifier::external_body]
